@@ -23,6 +23,7 @@ from superrec2.model.tree_mapping import parse_tree_mapping, serialize_tree_mapp
 from superrec2.utils.trees import LowestCommonAncestor
 
 from harness import gen, sr
+from harness.checks import c11_newick
 
 ID = "C11"
 RULE = (
@@ -48,9 +49,12 @@ TRUSTED = [
     "model: lean/SRVerif/Model/Serialize.lean (tree & name = first match in LEVEL order, dict = association "
     "list with in-place replacement, sort_synteny = stable insertion sort on the natural-sort key, "
     "to_dict/from_dict of the four classes with optional keys as Option)",
-    "ete3's Newick writer (format 8, format_root_node, features=['color']) and reader (format 1) are "
-    "PARAMETERS of the model; the theorem assumes read (write t) = t for uniquely and safely named trees; "
-    "this law is validated here on every generated tree (topology, child order, names, colour feature)",
+    "lean/SRVerif/Model/Newick.lean models ete3 3.1.3's format-8 writer (format_root_node, features=['color']) and "
+    "format-1 reader literally (strip, parenthesis count, nested splits, leaf/internal regexes, NHX features); the "
+    "round trip read (write t) = t is PROVED for every safely named tree of any arity and depth "
+    "(C11_newick_roundtrip) and instantiates the parametric class round trips of C11.lean "
+    "(C11_roundtrip_newick_*); the codec model is tied to ete3 by c11_newick.run_newick (all ordered trees <= 9 "
+    "nodes, random trees, odd names, grammar-generated, mutated and malformed strings)",
     "json.dumps/json.loads (dict order preserved, float inf <-> Infinity) are Python's, not modelled",
     "generated table lean/SRVerif/Generated/Registry.lean (event member names, default costs) is "
     "re-extracted from the source by harness/translate_cli.py on every run",
@@ -736,6 +740,7 @@ def run(ctx, res):
             res.evaluations += 1
     res.dist["tie-only/adversarial"] += len(reqs)
     compare(ctx, res, reqs)
+    c11_newick.run_newick(ctx, res)
     if skipped:
         res.notes.append(f"{skipped} solver runs raised and were skipped (not this property's subject)")
 
@@ -764,6 +769,8 @@ def corpus(ctx, res):
 
 
 def replay(ctx, data):
+    if str(data["input"].get("origin", "")).startswith("newick"):
+        return c11_newick.replay_newick(ctx, data)
     case = dict(data["input"])
     case.pop("origin", None)
     x = build(case)
